@@ -198,9 +198,9 @@ let () = register "c04.ranges" (fun line ->
               else if op = "define" && cls_ann_type_word f.cps r then Some "member_value_type"
               else if op = "define" && Array.exists (fun (g : c04file) -> g.rel <> f.rel && cls_ann_type_word g.cps r) files
               then Some "value_type_file"
-              else if q <> None && elsewhere f name r q then Some "wrong_file"
               else if (match q with Some ((qf : c04file), l, c) -> cls_other_entity qf.lts l c (qf.rel = f.rel) f.lts name r | None -> false)
               then Some "other_entity"
+              else if q <> None && elsewhere f name r q then Some "wrong_file"
               else if (match q with Some ((qf : c04file), l, c) -> qf.rel = f.rel && cls_later_member qf.lts l c r | None -> false)
               then Some "later_member"
               else None in
